@@ -300,6 +300,33 @@ func hasEmptySelector(ps []paIn) bool {
 	return false
 }
 
+// emptySelectorSelected: the selected mesh- or namespace-level policy is written with a present-but-empty selector.
+func emptySelectorSelected(l levels) bool {
+	for _, p := range []*paIn{l.mesh, l.ns} {
+		if p != nil && !p.selNil && len(p.sel) == 0 {
+			return true
+		}
+	}
+	return false
+}
+
+// tiedSelected: a policy selected at some level shares its creation time with another candidate of the same
+// level (same namespace, both with / both without selector).
+func tiedSelected(ps []paIn, l levels) bool {
+	for _, sel := range []*paIn{l.mesh, l.ns, l.wl} {
+		if sel == nil {
+			continue
+		}
+		for i := range ps {
+			q := &ps[i]
+			if (q.ns != sel.ns || q.name != sel.name) && q.ns == sel.ns && q.time == sel.time && q.hasSelector() == sel.hasSelector() {
+				return true
+			}
+		}
+	}
+	return false
+}
+
 // tied: two policies of one namespace share a creation time (the ambient code has no tie-break:
 // its choice depends on krt's enumeration order).
 func tied(ps []paIn) bool {
@@ -348,9 +375,9 @@ func (s *sut) ambientOracle(f []string, _ string, fail func(clause, class, detai
 			nsRaw = inheritTok(l.ns.mtls, "UNSET")
 		}
 		switch {
-		case hasEmptySelector(s.pas):
+		case emptySelectorSelected(l):
 			class = "F12:empty-selector"
-		case tied(s.pas):
+		case tiedSelected(s.pas, l):
 			class = "F11:creation-time-tie"
 		case want && !got && l.wl != nil && (wlMode == "PERMISSIVE" || wlMode == "DISABLE") && portMode == "STRICT" && l.meshMode == "STRICT":
 			class = "F2:strict-port-under-nonstrict-workload-and-strict-mesh"
